@@ -21,3 +21,14 @@ for sid,prop,summ,needs,caught,missed,checks,st,conf in rows:
     if st: out.append('* **%s**: %s'%(sid,st))
 open('/verif/seeded/REPORT.md','w').write('\n'.join(out)+'\n')
 print('\n'.join(out[-12:]))
+
+# detection matrix inside DESIGN.md
+lines=["| seed | property | caught by | run but not caught by (other property's check) | after strengthening |","|---|---|---|---|---|"]
+for sid,prop,summ,needs,caught,missed,checks,st,conf in rows:
+    own='C'+sid[1:3]
+    lines.append('| %s | %s | %s | %s | %s |'%(sid,prop,', '.join('%s `%s`'%(k,checks[k]['first_signatures'].split(';')[0][:70]) for k in caught) or '**none**',', '.join(missed) or '-', 'yes' if st else ''))
+d=open('/verif/DESIGN.md').read()
+b,e='<!-- DETECTION-MATRIX-BEGIN -->','<!-- DETECTION-MATRIX-END -->'
+if b in d and e in d:
+    d=d[:d.index(b)+len(b)]+'\n'+'\n'.join(lines)+'\n'+d[d.index(e):]
+    open('/verif/DESIGN.md','w').write(d)
